@@ -104,6 +104,8 @@ def compare(base, other, factor, label, job):
 
     def v(sig, detail):
         kf = "KF-C15-SCIPY-SMALL-UNITS" if (job["backend"] == "scipy" and label.startswith("UnitOfY") and abs(job["scale_exp"]) >= 6) else None
+        if kf is None and job["backend"] == "scipy" and label.startswith("UnitOfY") and job["limit"] is not None:
+            kf = "KF-C15-SCIPY-LIMITED-UNITS"
         out.append(dict(kind="violation", step=0, kf=kf, signature="%s: %s [%s/%s]" % (label, sig, job["kind"], job["backend"]), detail=dict(job=job, **detail)))
 
     f = np.asarray(factor, dtype=float)
